@@ -2,33 +2,53 @@
 
 Correspondence stream `c09` (engine `Engines/C09.lean`, model `Model/Reuse.lean`): a training frame
 is materialised by the REAL `model_matrix`; the recorded `ModelSpec`(s) (formula factors, structure,
-encoder_state, transform_state, na_action, output) are read back from the live object and handed to
-the model together with the follow-up frame (cells + dtype label; the kind of a dtype comes from the
-generated `Gen.kindTable`). The real `spec.get_model_matrix(follow_up)` is then compared with
-`Model.Reuse.replay`: exception class | per part: column names, exact values, DataMismatchWarning
-flag, and the column names each term generated BEFORE `_enforce_structure` (recorded by wrapping that
-method at run time; no hook in the source).
+encoder_state, transform_state, na_action, output) are read back from the live object ONCE, right after
+the fit, and handed to the model together with each follow-up frame (cells + dtype label; the kind of a
+dtype comes from the generated `Gen.kindTable`, column chosen by the input route: pandas materializer,
+narwhals materializer on a pandas frame, narwhals materializer on a pyarrow table). The real
+`spec.get_model_matrix(follow_up)` is then compared with `Model.Reuse.replay`: exception class | per
+part: column names, values, DataMismatchWarning flag, the column names each term generated BEFORE
+`_enforce_structure` (recorded by wrapping that method at run time; no hook in the source), and the
+`encoder_state` the application leaves in the reused spec (`Model.Reuse.specAfter`).
 
-Histories: between the fit and the reuse the recorded spec may be DERIVED — one part of a multi-part
-spec used on its own (`mm[1].model_spec`), `ModelSpec.subset(terms)`, a pickle round trip, and
-combinations. The derivation is performed on the live object; the model performs it itself on what
-the fit recorded (`Model.Reuse.derive`), reports any field in which the live derived spec differs
-from its own (terms, structure, encoder_state, transform_state, settings) and replays ITS derived
-spec (`replayDerived`).
+Factors: bare names, `C(name)`, and `C(name, <contrasts>, levels=[…])` with every built-in contrast
+(treatment/SAS with a base, sum, helmert, diff, poly with scores) and custom contrasts (dict literal,
+array literal, `contr.custom(array|dict, names=…)`, and a matrix / names taken from the evaluation
+context, which may CHANGE between the fit and the reuse). The model computes the coding (matrix, column
+names, name format) itself; only the `1/sqrt(norms2)` normalisation of `contr.poly` enters as a
+parameter (the live coding matrix per level count; its contract against the model's unnormalised
+columns is checked per case).
+
+Histories: between the fit and a reuse the recorded spec may be DERIVED — one part of a multi-part spec
+used on its own (`mm[1].model_spec`), `ModelSpec.subset(terms)`, `ModelSpecs.subset(formula)`, a pickle
+round trip, and combinations; the reuse call may carry `attr_overrides` (na_action / output /
+ensure_full_rank). The derivation is performed on the live object; the model performs it itself on what
+the fit recorded (`Model.Reuse.derive`), reports any field in which the live derived spec differs from its
+own (terms, structure, encoder_state, transform_state, settings) and replays ITS derived spec
+(`replayDerivedWith`). One recorded spec may be applied SEVERAL TIMES (a session: the shared live spec
+and specs derived from it, to data sets whose unseen levels repeat, shrink or grow): every application
+is compared with the model's replay of what the FIT recorded, and a deep snapshot of the fit specs'
+state dictionaries is compared before/after every application. A reuse may also run on ONE
+materializer object after an earlier call on that object (which may have failed after its factor
+evaluation): the model's answer does not depend on that earlier call.
 
 "Recorded" for the oracle means recorded by the FIT: the kind and levels of a factor are read from
 the reused spec and, where the derivation did not hand them on, from the specs the fit produced (all
 parts; a factor shared by several parts is evaluated and encoded once per fit). Only for a spec that
 was hand-edited after the fit (the `tamper` stream) is the edited spec itself the record.
 
-Oracle (implementation only): the three clauses of the property on the outcome —
+Oracle (implementation only): the clauses of the property on the outcome of EVERY application —
 (1) a factor whose kind on the follow-up data differs from the recorded kind => an exception, and
     `FactorEncodingError` when nothing else is wrong with the case (all columns present, no
-    na_action='raise' nulls);
+    na_action='raise' nulls, no failing contrast argument);
 (2) otherwise a matrix whose names are the recorded names, where every column built from a recorded
-    level that is absent from the follow-up column is all zero;
-(3) a non-null value outside the recorded levels that survives row dropping => names unchanged and a
-    DataMismatchWarning among the warnings raised.
+    level that is absent from the follow-up column is all zero (dummy coded factors), and where the
+    block of a contrast-coded main effect is, row by row, the row of the coding matrix the FIT recorded
+    (`encoder_state[…]["contrasts"].get_coding_matrix`) for the cell's level — the zero row for a cell
+    that is not a recorded level;
+(3) a non-null value outside the nominated levels that survives row dropping => names unchanged and a
+    DataMismatchWarning among the warnings raised — in every application of a session;
+(4) no application changes the state dictionaries of the recorded spec.
 """
 from __future__ import annotations
 
@@ -58,47 +78,98 @@ REQUIRED_THEOREMS = [
     "derived_kind_change_never_matrix",
     "derived_kind_change_is_error",
     "derived_names_recorded",
+    # contrasts other than the default treatment coding, explicit levels
+    "coded_columns_fixed_by_levels",
+    "builtin_contrasts_always_codable",
+    "coded_cell_is_matrix_row",
+    "contrast_coded_factor_on_reuse",
+    "treatment_base_on_reuse",
+    "generated_columns_are_products_of_encodings",
+    "custom_names_mismatch_is_error",
+    "bad_contrast_argument_never_matrix",
+    # routes, overrides, one materializer object, sessions
+    "replay_output_irrelevant",
+    "override_keeps_record",
+    "override_kind_change_never_matrix",
+    "override_names_recorded",
+    "no_overrides_is_plain_reuse",
+    "materializer_history_irrelevant",
+    "replay_order_irrelevant",
+    "application_keeps_recorded_state",
+    "session_repeats_replay",
 ]
 TRUSTED = [
     "parameters of the model (results of the real code forwarded per case): the kind `_is_categorical` assigns to a dtype "
-    "(generated table Gen/KindTable.lean, cross-checked per case against the live method), the iteration order of the pooled "
-    "`set` of factors (recorded by wrapping `_prepare_factor_evaluation_model_spec`), the recorded spec itself (read from the "
-    "live ModelSpec after a real fit)",
+    "(generated table Gen/KindTable.lean — column chosen by the input route: pandas materializer, narwhals materializer on a pandas "
+    "frame, narwhals materializer on a pyarrow table — cross-checked per case against the live method), the iteration order of the "
+    "pooled `set` of factors (recorded by wrapping `_prepare_factor_evaluation_model_spec`; by `replay_order_irrelevant` it decides "
+    "only WHICH error surfaces first), the recorded spec itself (read from the "
+    "live ModelSpec ONCE, right after a real fit), and the `1/sqrt(norms2)` normalisation of `contr.poly` (the live coding matrix "
+    "per level count; its contract `entry * sqrt(norms2[k]) = unnormalised entry` against the model's own columns is checked per case)",
+    "the contrasts of a `C(name, contrasts, levels=...)` factor are handed to the model as the generator wrote them into the formula "
+    "text (class, options, custom weights / names, context names resolved against the evaluation context of the application); Python's "
+    "evaluation of that text (`contr.sum` vs `contr.sum()`, positional vs keyword `base`, dict / list literals) is exercised, not modelled; "
+    "column-name formats and `PolyContrasts.NAME_ALIASES` are regenerated from the live classes (Gen/ContrastFormats.lean); the "
+    "coding matrices of treatment / SAS / sum / helmert / diff / poly are the entry functions of Model/Contrasts.lean (C11)",
     "derivation histories: `ModelSpec.subset` is modelled as written (degree-stable re-ordering of the nominated terms, structure "
-    "rows by term, every other field carried over by `update`) with the nominated terms given by position; taking one part of a "
-    "`ModelSpecs` and a pickle round trip are modelled as the identity on the dataclass fields; the live derived spec is compared "
-    "field by field with the model's derivation on every such case. Term matching by text in `subset` (`Formula.from_spec` of the "
-    "term strings) and the pickle machinery are exercised, not modelled",
-    "modelled, not verified: pandas.unique / pandas.Categorical(categories=levels) / get_dummies (a cell equal to a pinned level "
-    "sets that level's dummy, anything else — unseen value or null — gives an all-zero row), `astype('category')` sorting, "
-    "numpy element-wise products as exact rational arithmetic with NaN propagation",
+    "rows by term, every other field carried over by `update`) with the nominated terms given by position; `ModelSpecs.subset` with a "
+    "formula of the specs' own layout (per part; one part too many is the IndexError the code raises); taking one part of a "
+    "`ModelSpecs` and a pickle round trip are modelled as the identity on the dataclass fields; `attr_overrides` of the reuse call as "
+    "`update` of na_action / output / ensure_full_rank; the live derived spec is compared field by field with the model's derivation on "
+    "every application. Term matching by text in `subset` (`Formula.from_spec` of the term strings) and the pickle machinery are "
+    "exercised, not modelled; nominating formulas of a DIFFERENT layout (ValueError / AttributeError of `ModelSpecs.subset`) are not generated",
+    "modelled, not verified: pandas.unique / pandas.Categorical(categories=levels) / get_dummies / the sparse dummy encoder (a cell "
+    "equal to a nominated level sets that level's dummy, anything else — unseen value or null — gives an all-zero row; nominated levels "
+    "must be unique), `astype('category')` sorting, numpy / scipy products as exact rational arithmetic with NaN propagation (values are "
+    "compared exactly, and with relative tolerance 1e-9 when a coding matrix has non-dyadic entries: diff, scaled helmert, poly)",
     "`_get_columns_for_term` is modelled through the base-class semantics (C02 fastpath_eq_base relates the pandas fast path to it)",
-    "not modelled: the `encoded_cache` shared by the parts of a multi-part spec (unobservable unless two parts record different "
-    "encoder state for one factor), stateful transforms other than C() (C04), contrasts other than treatment coding (C11), "
-    "numerical columns holding non-number cells (pandas `str` dtype, D8/C08: the model raises a sentinel TypeError there)",
+    "not modelled: WITHIN one application, a factor without recorded categories (hand-edited spec) that is encoded twice — full and "
+    "reduced rank — finds the second time the categories its first encoding wrote back, and so announces a retained null "
+    "(na_action='ignore'); the model encodes every use against the spec as it was handed over (such cases are not generated); "
+    "the `encoded_cache` shared by the parts of a multi-part spec (unobservable unless two parts record different "
+    "encoder state for one factor), what a FAILED application may already have written into the spec, stateful transforms other than "
+    "C() (C04), numerical columns holding non-number cells (pandas `str` dtype, D8/C08: the model raises a sentinel TypeError there), "
+    "a custom contrast array without rows (`[]`: its error class depends on the output route), the `contrasts` entry that "
+    "`encode_contrasts` writes into the state for introspection (only its effect — none — on later encodings is observed)",
 ]
 ASSUMPTIONS = [
     "absent_levels_zero_columns / unseen_levels_no_reshape speak about terms whose generated column names are distinct and equal, "
     "as a set, to the recorded ones (hypotheses on the recorded spec alone; every spec produced by a fit without printed-name "
     "collisions satisfies them — the correspondence reports the generated names of every term)",
+    "application_keeps_recorded_state / session_repeats_replay: the parts agree on the kind they record for a factor, and every "
+    "entry of a categorical factor records the levels the reuse nominates (its categories, equal to an explicit `levels=` if any) — "
+    "the state every fit leaves; kernel-checked for the example spec",
     "level and column-name rendering: levels are strings or integers (str(level) is exact for those)",
 ]
 RULE = (
     "training frame: 1-3 categorical columns (object / category dtype, declared categories incl. unused ones, string or integer "
     "levels, 1-5 levels), 1-2 float columns, an integer column, 3-8 rows, occasional nulls; formula: 1-4 terms over bare names, "
-    "C(name), interactions up to degree 3 with numeric and categorical partners, intercept on/off, optionally two-sided, "
-    "optionally built from Factor objects with a declared kind; x ensure_full_rank x output pandas/numpy/sparse x na_action; "
+    "C(name), C(name, <contrast>[, levels=[...]][, spans_intercept=False]) with <contrast> one of contr.treatment/SAS (class, call, "
+    "base by keyword or position), contr.sum, contr.helmert(reverse, scale), contr.diff(backward), contr.poly(scores), a dict or "
+    "array literal, contr.custom(dict|array[, names=...]), a matrix / names taken from the evaluation context; interactions up to "
+    "degree 3 with numeric and categorical partners, the same coded factor in several terms / parts, intercept on/off, optionally "
+    "two-sided, optionally built from Factor objects with a declared kind; x ensure_full_rank x output pandas/numpy/sparse(/narwhals) "
+    "x na_action x materializer pandas / narwhals (22%; follow-up data as a pandas frame or a pyarrow table); "
     "follow-up frame: per column one of same / lose levels / gain levels / both / categorical->float|int|bool / "
     "numeric->object|category / object->str dtype / object<->category / int<->float / nulls added / column missing; "
     "every categorical follow-up column may ALSO hold nulls whatever happened to its levels (so nulls meet lost / unseen levels "
-    "under every na_action; more often under 'ignore'); "
-    "histories between fit and reuse (42% of the cases): one part of a 2-3 part formula `p1 | p2 [| p3]` (optionally two-sided) "
+    "under every na_action; more often under 'ignore'); a context-supplied custom contrast keeps its value or changes (other "
+    "weights, a column more / only one column, a row more or fewer, names that no longer match, an empty dict, a ragged matrix); "
+    "10% of the reuse calls carry attr_overrides (na_action / output / ensure_full_rank); "
+    "histories between fit and reuse (42% of the applications): one part of a 2-3 part formula `p1 | p2 [| p3]` (optionally two-sided) "
     "used on its own — the parts share factors —, ModelSpec.subset of 1-3 nominated terms in arbitrary order (so a factor may "
-    "survive only inside an interaction), part then subset, a pickle round trip, and pickle after any of these; multi-part specs "
-    "are also reused whole; "
-    "12% of the cases (never a `|` spec reused whole) hand-edit the (derived) spec after the fit (add/drop/rename a recorded column name, drop/add/unpin recorded "
-    "levels, remove or flip a recorded kind) to reach the padding, zero-fill and error branches of _enforce_structure; "
-    "non-trivial = formula with an interaction and a follow-up column that changes kind or levels; distinct by canonical JSON"
+    "survive only inside an interaction; 5% also nominate a term the spec does not have: ValueError), ModelSpecs.subset with a formula of the same layout (a prefix of the parts; 8% with one "
+    "part too many), part then subset, a pickle round trip, and pickle after any of these; multi-part specs are also reused whole; "
+    "14% of the cases are SESSIONS: the one fitted spec (and specs derived from the shared live object) applied 3-4 times, the first "
+    "data set holding 1-2 unseen levels of one categorical column, the later ones the same set / a subset / a superset / none, with "
+    "a deep snapshot of the fit specs' state dictionaries compared around every application; "
+    "10% of the single applications run on ONE materializer object after an earlier get_model_matrix call on it (a fresh formula over "
+    "the same factors; 75% of them end in an encoding-time ValueError — a treatment base that is no level — i.e. after every factor "
+    "was evaluated), 60% of those with a categorical column of the fit arriving numeric; "
+    "12% of the cases (never a `|` spec reused whole, never a session) hand-edit a copy of the (derived) spec after the fit (add/drop/"
+    "rename a recorded column name, drop/add/duplicate/unpin recorded levels, remove or flip a recorded kind) to reach the padding, "
+    "zero-fill and error branches of _enforce_structure, the duplicate-level and base-not-found errors, and the write-back of "
+    "categories; non-trivial = formula with an interaction and a follow-up column that changes kind or levels; distinct by canonical JSON"
 )
 
 STR_POOLS = [["a", "b", "c", "d", "e"], ["u", "v", "w", "z"], ["lo", "mid", "hi", "top"], ["a b", "c-d", "e.f", "g"]]
@@ -173,6 +244,32 @@ def cell_out(v):
     return "obj:" + repr(v)
 
 
+def py_lit(v) -> str:
+    """a value as it is written inside a formula (the normal form `ast.unparse` prints)"""
+    if isinstance(v, str):
+        return repr(v)
+    if isinstance(v, bool):
+        return repr(v)
+    if isinstance(v, int):
+        return repr(v)
+    if isinstance(v, list):
+        return "[" + ", ".join(py_lit(x) for x in v) + "]"
+    if isinstance(v, dict):
+        return "{" + ", ".join(f"{py_lit(k)}: {py_lit(x)}" for k, x in v.items()) + "}"
+    raise ValueError(v)
+
+
+def num_lit(q: str) -> str:
+    """a weight "p/q" (dyadic) as a Python literal"""
+    fr = Fraction(q)
+    return str(fr.numerator) if fr.denominator == 1 else repr(float(fr))
+
+
+def num_py(q: str):
+    fr = Fraction(q)
+    return int(fr) if fr.denominator == 1 else float(fr)
+
+
 # ----------------------------------------------------------------------------- generators
 
 
@@ -228,7 +325,14 @@ def col_levels(c):
     return out
 
 
-def mutate_col(rng, c, nrows, mode, null_p=0.0):
+def fit_levels(c):
+    """the categories the fit records for training column `c` (declared order, else sorted distinct values)"""
+    if "categories" in c:
+        return list(c["categories"])
+    return sorted(set(v for v in c["values"] if v is not None))
+
+
+def mutate_col(rng, c, nrows, mode, null_p=0.0, new_pool=None):
     """the follow-up version of training column `c`; `null_p`: chance that a categorical column
     ALSO holds a null, whatever happened to its levels (same / lost / gained / both / only new)"""
     name = c["name"]
@@ -236,24 +340,30 @@ def mutate_col(rng, c, nrows, mode, null_p=0.0):
     ints = bool(lv) and all(isinstance(v, int) for v in lv)
     catlike = is_cat_col(c) or (c["dtype"] == "int64" and name in ("A", "B", "G"))
     if catlike:
-        new_pool = NEW_INT if ints else NEW_STR
+        if new_pool is None:
+            new_pool = NEW_INT if ints else NEW_STR
         if mode == "same":
             pool = lv
         elif mode == "lose":
             pool = rng.sample(lv, max(1, len(lv) - rng.randint(1, 2))) if len(lv) > 1 else lv
         elif mode == "gain":
-            pool = lv + rng.sample(new_pool, rng.randint(1, 2))
+            pool = lv + rng.sample(new_pool, min(len(new_pool), rng.randint(1, 2)))
+        elif mode == "gainall":  # every value of `new_pool` occurs (sessions: a fixed set of unseen levels)
+            pool = lv + list(new_pool)
         elif mode == "both":
             keep = rng.sample(lv, max(1, len(lv) - 1)) if len(lv) > 1 else lv
-            pool = keep + rng.sample(new_pool, rng.randint(1, 2))
+            pool = keep + rng.sample(new_pool, min(len(new_pool), rng.randint(1, 2)))
         elif mode == "onlynew":
-            pool = rng.sample(new_pool, rng.randint(1, 2))
+            pool = rng.sample(new_pool, min(len(new_pool), rng.randint(1, 2)))
         else:
             pool = lv
         vals = [rng.choice(pool) for _ in range(nrows)]
         put = rng.randrange(nrows) if nrows else 0
         if mode in ("gain", "both") and nrows:
             vals[put] = pool[-1]
+        if mode == "gainall":
+            for i, v in enumerate(list(new_pool)[:nrows]):
+                vals[i] = v
         if nrows > 1 and c["dtype"] != "int64" and rng.random() < null_p:
             for _ in range(rng.choice([1, 1, 2])):
                 at = rng.randrange(nrows)
@@ -290,8 +400,6 @@ def mutate_col(rng, c, nrows, mode, null_p=0.0):
             return dict(name=name, dtype=dt, values=vals, categories=cats)
         if mode == "nulls" and nrows:
             vals[rng.randrange(nrows)] = None
-        if ints:  # object column of python ints
-            return dict(name=name, dtype="object", values=vals)
         return dict(name=name, dtype="object", values=vals)
     # numeric training column
     if mode in ("tocat", "tocatdtype"):
@@ -317,8 +425,24 @@ NUM_WEIGHTS = [6, 2, 1, 2, 2]
 NULL_P = {"drop": 0.12, "raise": 0.04, "ignore": 0.4}
 
 
-def gen_follow(rng, train, malformed, tampered=False, na_action="drop"):
+def arrow_safe(col):
+    """a follow-up column as the pyarrow route can carry it with the SAME dtype label: an object column of
+    python ints would become an arrow integer column (a different kind), an all-null object column has
+    no arrow type"""
+    if col["dtype"] == "object":
+        nn = [v for v in col["values"] if v is not None]
+        if not nn or any(not isinstance(v, str) for v in nn):
+            vals = [0 if v is None else v for v in col["values"]]
+            if all(isinstance(v, int) for v in vals):
+                return dict(name=col["name"], dtype="int64", values=vals)
+            return dict(name=col["name"], dtype="object", values=["a" if v is None else str(v) for v in col["values"]])
+    return col
+
+
+def gen_follow(rng, train, malformed, tampered=False, na_action="drop", arrow=False, force=None):
     nrows = rng.choice([0, 1, 2, 3, 4, 5, 6]) if rng.random() < 0.9 else train["nrows"]
+    if arrow and nrows == 0:
+        nrows = 2
     cols, modes = [], {}
     for c in train["cols"]:
         catlike = is_cat_col(c) or (c["dtype"] == "int64")
@@ -332,8 +456,11 @@ def gen_follow(rng, train, malformed, tampered=False, na_action="drop"):
                 mode = "toint"
             if mode == "flip" and c["dtype"] == "int64":
                 mode = "same"
+        if force and c["name"] in force:
+            mode = force[c["name"]]
         modes[c["name"]] = mode
-        cols.append(mutate_col(rng, c, nrows, mode, NULL_P[na_action]))
+        col = mutate_col(rng, c, nrows, mode, NULL_P[na_action])
+        cols.append(arrow_safe(col) if arrow else col)
     if malformed and cols:
         drop = rng.randrange(len(cols))
         modes[cols[drop]["name"]] = "missing"
@@ -341,20 +468,192 @@ def gen_follow(rng, train, malformed, tampered=False, na_action="drop"):
     return dict(nrows=nrows, cols=cols), modes
 
 
-def gen_formula(rng, train, nparts=1):
+# ---- contrasts of a C(...) atom
+
+WEIGHTS = ["-2", "-1", "-1", "0", "0", "1", "1", "2", "3", "1/2", "-3/2"]
+
+
+def gen_matrix(rng, nrows, ncols):
+    return [[rng.choice(WEIGHTS) for _ in range(ncols)] for _ in range(nrows)]
+
+
+def gen_custom_value(rng, n, as_dict=None):
+    """a value for the `contrasts` argument: a dict (key -> weights over the n levels) or an array (n rows)"""
+    k = rng.choice([1, 2, 2, 3])
+    if as_dict is None:
+        as_dict = rng.random() < 0.5
+    if as_dict:
+        keys = rng.sample(["p", "q", "r", "lin", "k 1"], k)
+        return dict(dict=True, keys=keys, vectors=[[rng.choice(WEIGHTS) for _ in range(n)] for _ in range(k)])
+    return dict(dict=False, keys=[], vectors=gen_matrix(rng, n, k))
+
+
+def custom_ncols(v):
+    return len(v["vectors"]) if v["dict"] else (len(v["vectors"][0]) if v["vectors"] else 0)
+
+
+def custom_text(v):
+    if v["dict"]:
+        return "{" + ", ".join(f"{k!r}: [{', '.join(num_lit(x) for x in vec)}]" for k, vec in zip(v["keys"], v["vectors"])) + "}"
+    return "[" + ", ".join("[" + ", ".join(num_lit(x) for x in row) + "]" for row in v["vectors"]) + "]"
+
+
+def custom_py(v):
+    if v["dict"]:
+        return {k: [num_py(x) for x in vec] for k, vec in zip(v["keys"], v["vectors"])}
+    return [[num_py(x) for x in row] for row in v["vectors"]]
+
+
+def gen_contr(rng, col, ctx, ctx_names):
+    """(argument text after the column name, descriptor) of one `C(col, …)` atom.
+    descriptor: {"contr": null | {...}, "levels": null | [level…]}"""
+    lv = fit_levels(col)
+    args, levels = [], None
+    if rng.random() < 0.18 and lv:
+        # explicit levels: a re-ordering / a subset / one more than the data holds
+        levels = rng.sample(lv, len(lv)) if rng.random() < 0.6 else rng.sample(lv, max(1, len(lv) - 1))
+        if rng.random() < 0.25:
+            levels = levels + [90 if isinstance(lv[0], int) else "xtra"]
+        lv = levels
+    n = len(lv)
+    r = rng.random()
+    contr = None
+    if r < 0.30:
+        contr = None
+    elif r < 0.40:
+        sas = rng.random() < 0.4
+        base = rng.choice(lv) if (lv and rng.random() < 0.7) else None
+        contr = dict(kind="treatment", sas=sas, base=base)
+        nm = "contr.SAS" if sas else "contr.treatment"
+        if base is None:
+            args.append(nm if rng.random() < 0.5 else nm + "()")
+        else:
+            args.append(f"{nm}(base={py_lit(base)})" if rng.random() < 0.6 else f"{nm}({py_lit(base)})")
+    elif r < 0.50:
+        contr = dict(kind="sum")
+        args.append(rng.choice(["contr.sum", "contr.sum()"]))
+    elif r < 0.60:
+        rev, sc = rng.random() < 0.6, rng.random() < 0.35
+        contr = dict(kind="helmert", reverse=rev, scale=sc)
+        opts = ([] if rev else ["reverse=False"]) + (["scale=True"] if sc else [])
+        args.append("contr.helmert" + ("(" + ", ".join(opts) + ")" if opts or rng.random() < 0.3 else ""))
+    elif r < 0.68:
+        bw = rng.random() < 0.6
+        contr = dict(kind="diff", backward=bw)
+        args.append("contr.diff" + ("" if bw and rng.random() < 0.6 else ("()" if bw else "(backward=False)")))
+    elif r < 0.76:
+        scores = None
+        if rng.random() < 0.4 and n:
+            scores = sorted(rng.sample(range(0, 12), n))
+        contr = dict(kind="poly", scores=scores)
+        args.append("contr.poly" if scores is None else f"contr.poly(scores={py_lit(scores)})")
+    else:
+        # custom contrasts over the n fitted levels
+        v = gen_custom_value(rng, max(n, 1))
+        style = rng.choices(["literal", "ctor", "ctor_names", "ctx", "ctx_ctor"], [4, 2, 2, 2, 3])[0]
+        if style == "literal":
+            contr = dict(kind="custom", ctor=False, value=v, names=None)
+            args.append(custom_text(v))
+        elif style == "ctor":
+            contr = dict(kind="custom", ctor=True, value=v, names=None)
+            args.append(f"contr.custom({custom_text(v)})")
+        elif style == "ctor_names":
+            names = rng.sample(["u", "v", "w", "n1"], custom_ncols(v)) if custom_ncols(v) <= 4 else None
+            contr = dict(kind="custom", ctor=True, value=v, names=names)
+            args.append(f"contr.custom({custom_text(v)}, names={py_lit(names)})")
+        else:
+            mname = ctx_names.pop(0)
+            ctx[mname] = v
+            if style == "ctx":
+                contr = dict(kind="custom", ctor=False, ctx=mname, names_ctx=None)
+                args.append(mname)
+            else:
+                nname = None
+                if rng.random() < 0.75:
+                    nname = "N" + mname[1:]
+                    ctx[nname] = rng.sample(["u", "v", "w", "n1"], custom_ncols(v))
+                contr = dict(kind="custom", ctor=True, ctx=mname, names_ctx=nname)
+                args.append(f"contr.custom({mname}" + (f", names={nname})" if nname else ")"))
+    if levels is not None:
+        args.append(f"levels={py_lit(levels)}")
+    if rng.random() < 0.06:
+        args.append("spans_intercept=False")
+    return args, dict(contr=contr, levels=levels)
+
+
+def mutate_ctx(rng, ctx):
+    """the evaluation context of a reuse: usually the one of the fit; sometimes a custom contrast matrix
+    or its names changed (other weights, a column more or fewer, a row more or fewer, names that no
+    longer match, an empty dict)"""
+    out, modes = {}, {}
+    for k, v in ctx.items():
+        if k.startswith("N"):
+            continue
+        names = ctx.get("N" + k[1:])
+        mode = rng.choices(["same", "weights", "morecols", "onecol", "rows", "names", "empty", "ragged"],
+                           [5, 2, 1.5, 1.5, 1.5, 5 if names is not None else 0, 0.5, 0.5])[0]
+        nv = dict(v, vectors=[list(r) for r in v["vectors"]], keys=list(v["keys"]))
+        n = len(v["vectors"][0]) if v["dict"] else len(v["vectors"])  # rows (levels)
+        k_ = custom_ncols(v)
+        if mode == "weights":
+            nv["vectors"] = [[rng.choice(WEIGHTS) for _ in r] for r in v["vectors"]]
+        elif mode == "morecols":
+            if v["dict"]:
+                nv["keys"].append("more")
+                nv["vectors"].append([rng.choice(WEIGHTS) for _ in range(n)])
+            else:
+                nv["vectors"] = [r + [rng.choice(WEIGHTS)] for r in nv["vectors"]]
+        elif mode == "onecol":
+            if v["dict"]:
+                nv["keys"], nv["vectors"] = nv["keys"][:1], nv["vectors"][:1]
+            else:
+                nv["vectors"] = [r[:1] for r in nv["vectors"]]
+        elif mode == "rows":
+            grow = rng.random() < 0.5 or n < 2  # (an array without any row is outside the model)
+            if v["dict"]:
+                nv["vectors"] = [r + ["1"] for r in nv["vectors"]] if grow else [r[:-1] for r in nv["vectors"]]
+            else:
+                nv["vectors"] = nv["vectors"] + [["1"] * k_] if grow else nv["vectors"][:-1]
+        elif mode == "empty" and v["dict"]:  # `{}` (an array without rows is outside the model: its error class depends on the output route)
+            nv["vectors"], nv["keys"] = [], []
+        elif mode == "ragged" and len(nv["vectors"]) > 1:
+            nv["vectors"][-1] = nv["vectors"][-1] + ["2"]
+        if nv == v and mode != "names":
+            mode = "same"
+        out[k] = nv
+        modes[k] = mode
+        if names is not None:
+            if mode == "names":
+                names = names[:-1] if rng.random() < 0.5 else names + ["xn"]
+            elif mode in ("morecols", "onecol") and rng.random() < 0.5:
+                names = (names + ["xn"])[: custom_ncols(nv)]  # the caller adjusted the names as well
+            out["N" + k[1:]] = names
+    return out, modes
+
+
+def gen_formula(rng, train, nparts=1, rich=True):
+    cols = {c["name"]: c for c in train["cols"]}
     cats = [c["name"] for c in train["cols"] if c["name"] in ("A", "B", "G")]
     nums = [c["name"] for c in train["cols"] if c["name"] in ("x", "z")]
     direct_cat = [c["name"] for c in train["cols"] if c["name"] in cats and c["dtype"] != "int64"]
+    atoms, ctx, ctx_names = {}, {}, ["M1", "M2", "M3", "M4", "M5", "M6"]
+    made = {}
 
     def atom():
         r = rng.random()
         if r < 0.55 and cats:
             v = rng.choice(cats)
-            if v in direct_cat and rng.random() < 0.6:
+            if v in direct_cat and rng.random() < 0.5:
                 return v
+            if rich and rng.random() < 0.55 and ctx_names:
+                if v in made and rng.random() < 0.6:
+                    return made[v]  # the same coded factor again (in another term / part)
+                args, desc = gen_contr(rng, cols[v], ctx, ctx_names)
+                text = f"C({', '.join([v] + args)})"
+                atoms[text] = dict(column=v, **desc)
+                made[v] = text
+                return text
             return f"C({v})"
-        if r < 0.62 and nums:
-            return f"C({rng.choice(nums)})" if False else rng.choice(nums)
         return rng.choice(nums) if nums else rng.choice(cats)
 
     def make_rhs():
@@ -376,10 +675,10 @@ def gen_formula(rng, train, nparts=1):
         # multi-part formula `p1 | p2 [| p3]`: the parts draw on the same few columns, so they share
         # factors (whose encoding is computed once and cached for the later parts)
         rhs = " | ".join([rhs] + [make_rhs() for _ in range(nparts - 1)])
-        return {"text": ("y ~ " if rng.random() < 0.2 else "") + rhs}
+        return dict(text=("y ~ " if rng.random() < 0.2 else "") + rhs, atoms=atoms, ctx=ctx)
     if rng.random() < 0.2:
-        return {"text": "y ~ " + rhs}
-    if rng.random() < 0.12:
+        return dict(text="y ~ " + rhs, atoms=atoms, ctx=ctx)
+    if rng.random() < 0.12 and not atoms:
         # hand-built factors with a declared kind (the first guard of _evaluate_factor)
         tl = []
         if rng.random() < 0.7:
@@ -402,15 +701,17 @@ def gen_formula(rng, train, nparts=1):
                 tl.append(fs)
         if len(tl) > (1 if tl and tl[0][0]["expr"] == "1" else 0):
             return {"terms": tl}
-    return {"text": rhs}
+    return dict(text=rhs, atoms=atoms, ctx=ctx)
 
 
-def gen_history(rng):
+def gen_history(rng, multipart=False):
     """what happens to the recorded spec between the fit and its reuse (resolved against the live
     spec at run time: `i` modulo the number of parts, `picks` modulo the number of terms)"""
     r = rng.random()
     part = dict(op="part", i=rng.randrange(6))
     subset = dict(op="subset", picks=[rng.randrange(12) for _ in range(rng.choice([1, 1, 2, 2, 3]))])
+    if rng.random() < 0.05:
+        subset["bogus"] = rng.randrange(1, 9)
     if r < 0.58:
         steps = []
     elif r < 0.71:
@@ -421,9 +722,27 @@ def gen_history(rng):
         steps = [part, subset]
     else:
         steps = [dict(op="pickle")]
+    if multipart and rng.random() < 0.3:
+        # ModelSpecs.subset with a formula of the same layout: per part, the nominated terms
+        steps = [dict(op="subset_all", picks=[[rng.randrange(12) for _ in range(rng.choice([1, 2, 2, 3]))] for _ in range(4)],
+                      extra=rng.random() < 0.08, keep=rng.choice([2, 3, 3, 3]))]
     if steps and steps[-1]["op"] != "pickle" and rng.random() < 0.15:
         steps.append(dict(op="pickle"))
     return steps
+
+
+def gen_overrides(rng, materializer):
+    if rng.random() >= 0.1:
+        return None
+    o = {}
+    r = rng.random()
+    if r < 0.45:
+        o["na_action"] = rng.choice(["drop", "ignore", "raise"])
+    elif r < 0.8:
+        o["output"] = rng.choice(["pandas", "numpy", "sparse"])
+    else:
+        o["efr"] = rng.random() < 0.5
+    return o
 
 
 def cases(rng, tier):
@@ -431,39 +750,114 @@ def cases(rng, tier):
     for i in range(n):
         na_action = rng.choices(["drop", "raise", "ignore"], [7, 1, 2])[0]
         train = gen_train(rng, nulls=na_action != "raise")
+        session = rng.random() < 0.14
         derive = gen_history(rng)
         has_part = any(st["op"] == "part" for st in derive)
-        nparts = rng.choice([2, 2, 3]) if has_part and rng.random() < 0.9 else (2 if rng.random() < 0.06 else 1)
+        nparts = rng.choice([2, 2, 3]) if has_part and rng.random() < 0.9 else (2 if rng.random() < 0.08 else 1)
+        if session and rng.random() < 0.5:
+            nparts = rng.choice([2, 3])
         formula = gen_formula(rng, train, nparts)
-        if "text" in formula and ("~" in formula["text"] or "|" in formula["text"]) and not has_part:
+        if any(d["contr"] and (d["contr"]["kind"] == "custom" or (d["contr"]["kind"] == "poly" and d["contr"]["scores"]))
+               for d in formula.get("atoms", {}).values()):
+            # weights / scores are written for the levels of the training column: no training row may be dropped
+            for col in train["cols"]:
+                fill = "0" if col["dtype"] == "float64" else next((v for v in col["values"] if v is not None), None)
+                col["values"] = [fill if v is None else v for v in col["values"]]
+        multi = "text" in formula and ("~" in formula["text"] or "|" in formula["text"])
+        structured = "text" in formula and "|" in formula["text"]
+        if multi and not has_part:
+            if structured and rng.random() < 0.35:
+                derive = gen_history(rng, multipart=True)
             if any(st["op"] == "subset" for st in derive):  # `subset` is a method of a single spec
                 derive.insert(0, dict(op="part", i=rng.randrange(6)))
         malformed = rng.random() < 0.04
         tamper = []
-        if rng.random() < 0.12:
+        if rng.random() < 0.12 and not session:
             for _ in range(rng.choice([1, 1, 2])):
                 tamper.append(dict(op=rng.choice(TAMPER_OPS), i=rng.randrange(6)))
+        if na_action == "ignore":
+            # a factor WITHOUT recorded categories that is encoded twice in one application (full and reduced rank)
+            # finds, the second time, the categories its first encoding wrote back, and then announces a retained
+            # null: the model encodes against the spec as it was handed over (TRUSTED) — not generated
+            tamper = [dict(t, op="levels_drop") if t["op"] == "levels_none" else t for t in tamper]
         if tamper and "|" in formula.get("text", "") and not any(st["op"] == "part" for st in derive):
             # parts that share a factor also share its encoding within one call (`encoded_cache`, outside the
             # model): hand edits that make two parts record different state for one factor are not generated
             tamper = []
-        follow, modes = gen_follow(rng, train, malformed, tampered=bool(tamper), na_action=na_action)
-        yield dict(
+        materializer = "narwhals" if rng.random() < 0.22 else "pandas"
+        output = rng.choice(["pandas", "pandas", "numpy", "sparse"] + (["narwhals"] if materializer == "narwhals" else []))
+        ctx = formula.get("ctx", {})
+        apps = []
+        prior = None
+        if session:
+            # one recorded spec applied 3-4 times: the first application meets unseen levels; the later ones
+            # meet the same set, a subset of it, or a superset
+            catcols = [c for c in train["cols"] if is_cat_col(c) and c["name"] in ("A", "B", "G")]
+            target = rng.choice(catcols) if catcols else None
+            ints = target is not None and all(isinstance(v, int) for v in col_levels(target))
+            pool = list(NEW_INT if ints else NEW_STR)
+            rng.shuffle(pool)
+            first = pool[: rng.choice([1, 2])]
+            for j in range(rng.choice([3, 3, 4])):
+                if j == 0:
+                    unseen = first
+                else:
+                    kind = rng.choice(["same", "subset", "superset", "none"])
+                    unseen = {"same": first, "subset": first[:1], "superset": first + pool[len(first): len(first) + 1], "none": []}[kind]
+                arrow = materializer == "narwhals" and rng.random() < 0.4
+                follow, modes = gen_follow(rng, train, False, na_action=na_action, arrow=arrow,
+                                           force=None if target is None else {target["name"]: "same"})
+                if target is not None and follow["nrows"] == 0:
+                    follow, modes = gen_follow(rng, train, False, na_action=na_action, arrow=arrow, force={target["name"]: "same"})
+                if target is not None and unseen and follow["nrows"]:
+                    idx = [k for k, c in enumerate(follow["cols"]) if c["name"] == target["name"]][0]
+                    col = mutate_col(rng, target, follow["nrows"], "gainall", NULL_P[na_action], new_pool=unseen)
+                    follow["cols"][idx] = arrow_safe(col) if arrow else col
+                    modes[target["name"]] = "gain"
+                d = [] if j == 0 and rng.random() < 0.7 else gen_history(rng, multipart=structured and rng.random() < 0.5)
+                if multi and any(st["op"] == "subset" for st in d) and not any(st["op"] == "part" for st in d):
+                    d.insert(0, dict(op="part", i=rng.randrange(6)))
+                if not multi:
+                    d = [st for st in d if st["op"] not in ("part", "subset_all")]
+                apps.append(dict(derive=d, follow=follow, modes=modes, ctx=ctx, follow_as="arrow" if arrow else "pandas"))
+        else:
+            arrow = materializer == "narwhals" and rng.random() < 0.45
+            prior = None
+            force = None
+            if rng.random() < 0.1:
+                # the reuse runs on a materializer OBJECT that already served another call: a fresh formula over the
+                # same columns, usually one that fails at encoding time, i.e. after all its factors were evaluated;
+                # often a categorical column of the fit arrives numeric
+                prior = dict(fails=rng.random() < 0.75, col=rng.choice([c["name"] for c in train["cols"] if c["name"] != "y"]))
+                catcols = [c["name"] for c in train["cols"] if is_cat_col(c) and c["name"] in ("A", "B", "G")]
+                if catcols and rng.random() < 0.6:
+                    force = {rng.choice(catcols): rng.choice(["tofloat", "toint"])}
+            follow, modes = gen_follow(rng, train, malformed, tampered=bool(tamper), na_action=na_action, arrow=arrow, force=force)
+            actx, cmodes = mutate_ctx(rng, ctx) if (ctx and rng.random() < 0.7) else (ctx, {})
+            app = dict(derive=derive, follow=follow, modes=modes, ctx=actx, follow_as="arrow" if arrow else "pandas", tamper=tamper)
+            if cmodes:
+                app["ctx_modes"] = cmodes
+            ov = gen_overrides(rng, materializer)
+            if ov:
+                app["overrides"] = ov
+            apps.append(app)
+        case = dict(
             formula=formula,
             train=train,
-            follow=follow,
-            modes=modes,
-            tamper=tamper,
-            derive=derive,
-            output=rng.choice(["pandas", "pandas", "numpy", "sparse"]),
+            apps=apps,
+            materializer=materializer,
+            output=output,
             na_action=na_action,
             efr=rng.random() < 0.75,
         )
+        if not session and prior:
+            case["prior"] = prior
+        yield case
 
 
 # hand edits of the recorded spec (a user may `spec.update(structure=…)` or supply encoder state):
 # they reach the padding / zero-fill / error branches of `_enforce_structure` and the un-pinned path
-TAMPER_OPS = ["cols_add", "cols_drop", "cols_rename", "levels_drop", "levels_add", "levels_none", "enc_remove", "kind_flip"]
+TAMPER_OPS = ["cols_add", "cols_drop", "cols_rename", "levels_drop", "levels_add", "levels_none", "enc_remove", "kind_flip", "levels_dup"]
 
 
 def apply_tamper(ms, ops):
@@ -499,11 +893,25 @@ def apply_tamper(ms, ops):
             elif name == "levels_add":
                 ints = bool(cats) and all(isinstance(x, (int, numpy.integer)) for x in cats)
                 cats.append(90 + len(cats) if ints else f"NEW{len(cats)}")
+            elif name == "levels_dup" and cats:
+                cats.append(cats[0])
             if name == "levels_none":
                 state = {k2: v for k2, v in state.items() if k2 != "categories"}
             else:
                 state = dict(state, categories=cats)
             ms.encoder_state[k] = (kind, state)
+
+
+def norm_case(c):
+    """cases written before sessions existed hold one application at the top level"""
+    if "apps" in c:
+        return c
+    app = dict(derive=c.get("derive", []), follow=c["follow"], modes=c.get("modes", {}), ctx={}, follow_as="pandas",
+               tamper=c.get("tamper", []))
+    out = {k: v for k, v in c.items() if k not in ("derive", "follow", "modes", "tamper")}
+    out["apps"] = [app]
+    out.setdefault("materializer", "pandas")
+    return out
 
 
 def formula_text(c):
@@ -514,21 +922,39 @@ def formula_text(c):
 
 
 def used_columns(c):
-    return sorted(set(re.findall(r"[A-Za-z_]\w*", formula_text(c))) - {"C"})
+    f = c["formula"]
+    text = formula_text(c)
+    for a, d in f.get("atoms", {}).items():
+        text = text.replace(a, " " + d["column"] + " ")
+    return sorted(set(re.findall(r"[A-Za-z_]\w*", text)) - {"C"})
 
 
 def describe(c):
+    c = norm_case(c)
     used = used_columns(c)
-    ms = sorted({c["modes"].get(u, "?") for u in used})
-    tam = "|tamper:" + "+".join(sorted({t["op"] for t in c["tamper"]})) if c.get("tamper") else ""
-    der = "|derive:" + ">".join(st["op"] for st in c["derive"]) if c.get("derive") else ""
-    return ",".join(ms) + ("|ix" if (":" in formula_text(c) or "*" in formula_text(c)) else "") + der + tam
+    f = c["formula"]
+    kinds = sorted({(d["contr"] or {}).get("kind", "default") + ("+levels" if d["levels"] is not None else "") for d in f.get("atoms", {}).values()})
+    out = []
+    for app in c["apps"]:
+        ms = sorted({app["modes"].get(u, "?") for u in used})
+        tam = "|tamper:" + "+".join(sorted({t["op"] for t in app["tamper"]})) if app.get("tamper") else ""
+        der = "|derive:" + ">".join(st["op"] for st in app["derive"]) if app.get("derive") else ""
+        cm = "|ctx:" + "+".join(sorted(set(app["ctx_modes"].values()) - {"same"})) if app.get("ctx_modes") else ""
+        ov = "|override:" + "+".join(sorted(app["overrides"])) if app.get("overrides") else ""
+        out.append(",".join(ms) + der + tam + cm + ov + ("|arrow" if app.get("follow_as") == "arrow" else ""))
+    t = formula_text(c)
+    return (" ; ".join(out) + ("|ix" if (":" in t or "*" in t) else "") + ("|contr:" + "+".join(kinds) if kinds else "")
+            + ("|narwhals" if c.get("materializer") == "narwhals" else "") + ("|session" if len(c["apps"]) > 1 else "")
+            + ("|prior" if c.get("prior") else ""))
 
 
 def nontrivial(c):
+    c = norm_case(c)
     t = formula_text(c)
+    for a in c["formula"].get("atoms", {}):
+        t = t.replace(a, "K")
     used = used_columns(c)
-    return (":" in t or "*" in t) and any(c["modes"].get(u, "same") != "same" for u in used)
+    return (":" in t or "*" in t) and any(app["modes"].get(u, "same") != "same" for app in c["apps"] for u in used)
 
 
 # ----------------------------------------------------------------------------- the real code
@@ -543,26 +969,34 @@ def build_formula(f):
     return Formula([Term([Factor(x["expr"], eval_method=x["eval"], kind=x["kind"]) for x in t]) for t in f["terms"]])
 
 
-def factor_json(fa):
+def ctx_py(ctx):
+    """the evaluation context as Python objects"""
+    return {k: (list(v) if isinstance(v, list) else custom_py(v)) for k, v in ctx.items()}
+
+
+def factor_json(fa, atoms):
     em = fa.eval_method.value
     kind = None if fa.kind.value == "unknown" else fa.kind.value
     if em == "lookup":
         return dict(expr=fa.expr, via="lookup", column=fa.expr, declared=kind, value="0")
     if em == "literal":
         return dict(expr=fa.expr, via="literal", column="", declared=kind, value=fstr(Fraction(fa.expr)))
+    if fa.expr in atoms:
+        d = atoms[fa.expr]
+        return dict(expr=fa.expr, via="cwrap", column=d["column"], declared=kind, value="0", desc=dict(contr=d["contr"], levels=d["levels"]))
     m = re.fullmatch(r"C\((\w+)\)", fa.expr)
     if not m:
         raise ValueError("unsupported python factor " + fa.expr)
-    return dict(expr=fa.expr, via="cwrap", column=m.group(1), declared=kind, value="0")
+    return dict(expr=fa.expr, via="cwrap", column=m.group(1), declared=kind, value="0", desc=dict(contr=None, levels=None))
 
 
-def spec_json(ms):
+def spec_json(ms, atoms):
     enc = []
     for expr, (kind, state) in ms.encoder_state.items():
         cats = state.get("categories") if isinstance(state, dict) else None
         enc.append(dict(expr=expr, kind=kind.value, levels=None if cats is None else [val_json(x) for x in cats]))
     return dict(
-        terms=[[factor_json(fa) for fa in t.factors] for t in ms.formula],
+        terms=[[factor_json(fa, atoms) for fa in t.factors] for t in ms.formula],
         structure=[
             dict(
                 scoped=[
@@ -587,9 +1021,52 @@ def flatten(x):
     return list(x._flatten()) if isinstance(x, Structured) else [x]
 
 
+def snap(x, depth=0):
+    """a value-level snapshot of a state object (nested dicts included)"""
+    from formulaic.transforms.contrasts import Contrasts, ContrastsState
+
+    if isinstance(x, dict):
+        return {"dict": [[snap(k, depth + 1), snap(v, depth + 1)] for k, v in x.items()]}
+    if isinstance(x, (list, tuple)):
+        return [snap(v, depth + 1) for v in x]
+    if isinstance(x, ContrastsState):
+        return {"ContrastsState": [snap(x.contrasts, depth + 1), snap(list(x.levels), depth + 1)]}
+    if isinstance(x, Contrasts):
+        return {type(x).__name__: [[k, snap(v, depth + 1)] for k, v in sorted(vars(x).items())]}
+    if isinstance(x, numpy.ndarray):
+        return {"ndarray": x.tolist()}
+    if isinstance(x, (str, int, float, bool, type(None))):
+        return repr(x)
+    if hasattr(x, "value") and hasattr(x, "name"):  # enums (Factor.Kind)
+        return str(x)
+    return repr(x)[:80]
+
+
+def state_snapshot(specs):
+    return [dict(encoder_state=snap(ms.encoder_state), transform_state=snap(ms.transform_state),
+                 structure=[[str(s.term), [str(c) for c in s.columns]] for s in (ms.structure or [])]) for ms in flatten(specs)]
+
+
 def matrix_json(m, output):
     names = [str(x) for x in m.model_spec.column_names]
-    if output == "pandas":
+    native = getattr(m, "__wrapped__", m)
+    if output == "narwhals":
+        try:
+            import pyarrow
+
+            if isinstance(native, pyarrow.Table):
+                native = native.to_pandas()
+        except ImportError:  # pragma: no cover
+            pass
+        if hasattr(native, "to_native"):
+            native = native.to_native()
+        if isinstance(native, numpy.ndarray):
+            arr, names2 = native, names
+        else:
+            names2 = [str(x) for x in native.columns]
+            arr = native.to_numpy(dtype=object) if native.shape[1] else numpy.empty((native.shape[0], 0))
+        names = names2
+    elif output == "pandas":
         names = [str(x) for x in m.columns]
         arr = m.to_numpy(dtype=object) if m.shape[1] else numpy.empty((m.shape[0], 0))
     elif output == "sparse":
@@ -601,109 +1078,320 @@ def matrix_json(m, output):
     return dict(names=names, values=values, ncols=ncols, spec_names=[str(x) for x in m.model_spec.column_names])
 
 
+def term_text(t):
+    """a term as one writes it in a formula: its factors' source text joined by `:`. (NOT `str(term)`: the
+    printed form back-quotes a factor whose text contains a colon — a dict literal inside `C(…)` — and a
+    back-quoted name re-parses as the lookup of a data column of that name.)"""
+    return ":".join(f.expr for f in t.factors)
+
+
+class DeriveFailed(Exception):
+    def __init__(self, cls, resolved):
+        super().__init__(cls)
+        self.cls, self.resolved = cls, resolved
+
+
 def apply_derive(specs, steps, as_text):
     """the history between fit and reuse, on the LIVE spec object(s); returns the derived object
-    and the steps with their indices resolved (what the model is told)"""
+    and the steps with their indices resolved (what the model is told). A step the library refuses
+    raises DeriveFailed(exception class, resolved steps up to and including it)."""
     import pickle
+
+    from formulaic import Formula
 
     cur, resolved = specs, []
     for st in steps:
         parts = flatten(cur)
-        if st["op"] == "part":  # one part of a multi-part spec, used on its own
-            i = st["i"] % len(parts)
-            cur = parts[i]
-            resolved.append(dict(op="part", i=i))
-        elif st["op"] == "subset":  # ModelSpec.subset(terms)
-            if len(parts) != 1:
-                raise RuntimeError("generator discipline: subset needs a single spec")
-            ms = parts[0]
-            terms = list(ms.formula)
-            if [str(r.term) for r in ms.structure] != [str(t) for t in terms]:
-                raise RuntimeError("structure rows are not in formula order")
-            picks = []
-            for p in st["picks"]:
-                if terms and p % len(terms) not in picks:
-                    picks.append(p % len(terms))
-            # the usual call nominates the terms by their text; hand-built factors (declared kinds)
-            # are nominated as Term objects
-            cur = ms.subset([str(terms[i]) for i in picks] if as_text else [terms[i] for i in picks])
-            resolved.append(dict(op="subset", picks=picks))
-        else:  # stored and loaded again
-            cur = pickle.loads(pickle.dumps(cur))
-            resolved.append(dict(op="pickle"))
+        try:
+            if st["op"] == "part":  # one part of a multi-part spec, used on its own
+                i = st["i"] % len(parts)
+                resolved.append(dict(op="part", i=i))
+                cur = parts[i]
+            elif st["op"] == "subset":  # ModelSpec.subset(terms)
+                if len(parts) != 1:
+                    raise RuntimeError("generator discipline: subset needs a single spec")
+                ms = parts[0]
+                terms = list(ms.formula)
+                if [str(r.term) for r in ms.structure] != [str(t) for t in terms]:
+                    raise RuntimeError("structure rows are not in formula order")
+                picks = []
+                for p in st["picks"]:
+                    if terms and p % len(terms) not in picks:
+                        picks.append(p % len(terms))
+                texts = [term_text(terms[i]) for i in picks]
+                objs = [terms[i] for i in picks]
+                if st.get("bogus"):  # a term the spec does not have: position "one past the last" for the model
+                    from formulaic.parser.types import Factor, Term
+
+                    at = st["bogus"] % (len(picks) + 1)
+                    picks.insert(at, len(terms))
+                    texts.insert(at, "no_such_column")
+                    objs.insert(at, Term([Factor("no_such_column", eval_method="lookup")]))
+                resolved.append(dict(op="subset", picks=picks))
+                # the usual call nominates the terms by their text; hand-built factors (declared kinds)
+                # are nominated as Term objects
+                cur = ms.subset(texts if as_text else objs)
+            elif st["op"] == "subset_all":  # ModelSpecs.subset(formula with the layout of the specs)
+                if not hasattr(cur, "_flatten") or len(parts) < 2:
+                    raise RuntimeError("generator discipline: subset_all needs a multi-part spec")
+                has_lhs = "lhs" in cur._structure
+                nrhs = len(parts) - (1 if has_lhs else 0)
+                if nrhs < 2:
+                    raise RuntimeError("generator discipline: subset_all needs at least two right-hand parts")
+                keep = (1 if has_lhs else 0) + min(nrhs, max(2, st.get("keep", 3)))
+                picks_all, texts = [], []
+                for pi, ms in enumerate(parts[:keep]):
+                    terms = list(ms.formula)
+                    if [str(r.term) for r in ms.structure] != [str(t) for t in terms]:
+                        raise RuntimeError("structure rows are not in formula order")
+                    picks = []
+                    for p in st["picks"][pi % len(st["picks"])]:
+                        if terms and p % len(terms) not in picks:
+                            picks.append(p % len(terms))
+                    picks_all.append(picks)
+                    texts.append([term_text(terms[i]) for i in picks])
+                if st.get("extra") and keep == len(parts):  # one part more than the specs have
+                    picks_all.append([0])
+                    texts.append([texts[-1][0]] if texts[-1] else ["1"])
+                if has_lhs:
+                    f = Formula(lhs=texts[0], rhs=tuple(texts[1:]))
+                else:
+                    f = Formula(tuple(texts))
+                resolved.append(dict(op="subset_all", picks=picks_all))
+                cur = cur.subset(f)
+            else:  # stored and loaded again
+                resolved.append(dict(op="pickle"))
+                cur = pickle.loads(pickle.dumps(cur))
+        except RuntimeError:
+            raise
+        except Exception as e:
+            raise DeriveFailed(type(e).__name__, resolved) from e
     return cur, resolved
+
+
+def to_data(frame_json, follow_as):
+    df = make_frame(frame_json)
+    if follow_as == "arrow":
+        import pyarrow
+
+        return pyarrow.Table.from_pandas(df)
+    return df
+
+
+def live_kinds(materializer, data):
+    from formulaic.materializers import NarwhalsMaterializer, PandasMaterializer
+
+    if materializer == "narwhals":
+        probe = NarwhalsMaterializer(data)
+        return {k: ("categorical" if probe._is_categorical(v) else "numerical") for k, v in probe.data_context.items()}
+    probe = PandasMaterializer(data)
+    return {k: ("categorical" if probe._is_categorical(data[k]) else "numerical") for k in data.columns}
+
+
+def poly_tables(atoms):
+    """PARAMETER of the model: for every `contr.poly` atom the live coding matrix per level count"""
+    from formulaic.transforms.contrasts import PolyContrasts
+
+    out = {}
+    for expr, d in atoms.items():
+        if d["contr"] and d["contr"]["kind"] == "poly":
+            tabs = []
+            for n in range(2, 9):
+                try:
+                    with warnings.catch_warnings():
+                        warnings.simplefilter("ignore")
+                        m = PolyContrasts(scores=d["contr"]["scores"])._get_coding_matrix(list(range(n)), reduced_rank=True)
+                except Exception:
+                    continue
+                m = numpy.asarray(m)
+                if not numpy.isfinite(m).all():
+                    continue
+                tabs.append(dict(n=n, matrix=[[fstr(Fraction(float(m[i, j]))) for j in range(m.shape[1])] for i in range(m.shape[0])]))
+            out[expr] = tabs
+    return out
+
+
+def recorded_codings(fit_objs, atoms):
+    """for the oracle: the coding matrices the FIT recorded (`ContrastsState.get_coding_matrix`), per part and factor"""
+    out = []
+    for ms in fit_objs:
+        per = {}
+        try:
+            fc = {f.expr: cs for f, cs in ms.factor_contrasts.items()}
+        except Exception:
+            fc = {}
+        for expr, cs in fc.items():
+            for red in (True, False):
+                try:
+                    with warnings.catch_warnings():
+                        warnings.simplefilter("ignore")
+                        m = cs.get_coding_matrix(reduced_rank=red)
+                    per[f"{expr}|{int(red)}"] = dict(
+                        levels=[val_json(x) for x in m.index], cols=[str(x) for x in m.columns],
+                        matrix=[[fstr(Fraction(float(v))) for v in row] for row in m.to_numpy(dtype=float)])
+                except Exception:
+                    continue
+        out.append(per)
+    return out
 
 
 def impl(c):
     from formulaic import model_matrix
     from formulaic.errors import FormulaicWarning
-    from formulaic.materializers import PandasMaterializer
+    from formulaic.materializers import NarwhalsMaterializer, PandasMaterializer
     from formulaic.materializers.base import FormulaMaterializer
 
-    train, follow = make_frame(c["train"]), make_frame(c["follow"])
+    c = norm_case(c)
+    atoms = c["formula"].get("atoms", {})
+    train = make_frame(c["train"])
     out = {}
+    kw = {}
+    if c["materializer"] == "narwhals":
+        kw["materializer"] = "narwhals"
+    if c["formula"].get("ctx"):
+        kw["context"] = ctx_py(c["formula"]["ctx"])
     with warnings.catch_warnings():
         warnings.simplefilter("ignore")
         try:
-            mm = model_matrix(build_formula(c["formula"]), train, output=c["output"], na_action=c["na_action"], ensure_full_rank=c["efr"])
+            mm = model_matrix(build_formula(c["formula"]), train, output=c["output"], na_action=c["na_action"], ensure_full_rank=c["efr"], **kw)
         except Exception as e:
-            return dict(train_error=type(e).__name__)
-    specs = mm.model_spec
-    # what the fit recorded (every part), before anything is derived from it
-    out["fit_specs"] = [spec_json(ms) for ms in flatten(specs)]
-    if c.get("derive"):
+            return dict(train_error=type(e).__name__, error="fit:" + type(e).__name__)
+    fit = mm.model_spec
+    # what the fit recorded (every part), before anything is derived from it or applied
+    out["fit_specs"] = [spec_json(ms, atoms) for ms in flatten(fit)]
+    out["poly_tables"] = poly_tables(atoms)
+    out["recorded_codings"] = recorded_codings(flatten(fit), atoms)
+    snap0 = state_snapshot(fit)
+    out["apps"] = []
+    for app in c["apps"]:
+        ao = {}
+        out["apps"].append(ao)
+        specs = fit
         try:
-            specs, out["derive_resolved"] = apply_derive(specs, c["derive"], "text" in c["formula"])
-        except RuntimeError:
-            raise
-        except Exception as e:
-            out["derive_error"] = type(e).__name__
-            return out
-        out["derived"] = [spec_json(ms) for ms in flatten(specs)]
-    for ms in flatten(specs):
-        apply_tamper(ms, c.get("tamper", []))
-    out["specs"] = [spec_json(ms) for ms in flatten(specs)]  # the spec(s) actually reused
-    probe = PandasMaterializer(follow)
-    out["kinds"] = {k: ("categorical" if probe._is_categorical(follow[k]) else "numerical") for k in follow.columns}
+            specs, ao["derive_resolved"] = apply_derive(fit, app.get("derive", []), "text" in c["formula"])
+        except DeriveFailed as e:
+            ao["derive_error"], ao["derive_resolved"] = e.cls, e.resolved
+            continue
+        ao["derived"] = [spec_json(ms, atoms) for ms in flatten(specs)]
+        if app.get("tamper"):
+            import pickle
 
-    order, generated = [], []
-    o_prep = FormulaMaterializer._prepare_factor_evaluation_model_spec
-    o_enf = FormulaMaterializer._enforce_structure
+            specs = pickle.loads(pickle.dumps(specs))  # hand edits are made on a copy: the fit's record stays
+            for ms in flatten(specs):
+                apply_tamper(ms, app["tamper"])
+        ao["specs"] = [spec_json(ms, atoms) for ms in flatten(specs)]  # the spec(s) actually reused
+        data = to_data(app["follow"], app.get("follow_as", "pandas"))
+        ao["kinds"] = live_kinds(c["materializer"], data)
 
-    def w_prep(self, model_specs):
-        factors, es = o_prep(self, model_specs)
-        order.extend(f.expr for f in factors)
-        return factors, es
+        order, generated = [], []
+        o_prep = FormulaMaterializer._prepare_factor_evaluation_model_spec
+        o_enf = FormulaMaterializer._enforce_structure
 
-    def w_enf(self, cols, spec, drop_rows):
-        generated.append([[str(k) for k in col[2]] for col in cols])
-        return o_enf(self, cols, spec, drop_rows)
+        def w_prep(self, model_specs):
+            factors, es = o_prep(self, model_specs)
+            order.clear()
+            order.extend(f.expr for f in factors)
+            return factors, es
 
-    FormulaMaterializer._prepare_factor_evaluation_model_spec = w_prep
-    FormulaMaterializer._enforce_structure = w_enf
-    try:
-        with warnings.catch_warnings(record=True) as wlist:
-            warnings.simplefilter("always")
-            try:
-                m2 = specs.get_model_matrix(follow)
-                outcome = dict(results=[matrix_json(m, c["output"]) for m in flatten(m2)])
-            except Exception as e:
-                outcome = dict(error=type(e).__name__)
-        outcome["warnings"] = sorted({w.category.__name__ for w in wlist if issubclass(w.category, FormulaicWarning)})
-    finally:
-        FormulaMaterializer._prepare_factor_evaluation_model_spec = o_prep
-        FormulaMaterializer._enforce_structure = o_enf
-    out["order"] = order
-    out["generated"] = generated
-    out["outcome"] = outcome
-    if "error" in outcome:
-        out["error"] = outcome["error"]  # counted in the evidence's error_kinds histogram
+        def w_enf(self, cols, spec, drop_rows):
+            generated.append([[str(k) for k in col[2]] for col in cols])
+            return o_enf(self, cols, spec, drop_rows)
+
+        FormulaMaterializer._prepare_factor_evaluation_model_spec = w_prep
+        FormulaMaterializer._enforce_structure = w_enf
+        ov = {}
+        for k, v in (app.get("overrides") or {}).items():
+            ov["ensure_full_rank" if k == "efr" else k] = v
+        eff_output = ov.get("output", c["output"])
+        actx = ctx_py(app.get("ctx") or {})
+        try:
+            with warnings.catch_warnings(record=True) as wlist:
+                warnings.simplefilter("always")
+                try:
+                    if c.get("prior"):
+                        # ONE materializer object: an earlier call on it, then the recorded spec
+                        cls = NarwhalsMaterializer if c["materializer"] == "narwhals" else PandasMaterializer
+                        if hasattr(specs, "get_materializer"):
+                            mat = specs.get_materializer(data, context=actx)  # a single ModelSpec builds its own
+                        else:
+                            mat = cls(data, context=actx)
+                        exprs = sorted({f["expr"] for s in ao["specs"] for t in s["terms"] for f in t if f["via"] != "literal"})
+                        text = " + ".join(exprs + ([f"C({c['prior']['col']}, contr.treatment(base='__no_such_level__'))"] if c["prior"]["fails"] else []))
+                        try:
+                            mat.get_model_matrix(text or "1", output=eff_output, na_action=ov.get("na_action", c["na_action"]))
+                            ao["prior_outcome"] = "matrix"
+                        except Exception as e:
+                            ao["prior_outcome"] = type(e).__name__
+                        generated.clear()
+                        wlist.clear()
+                        m2 = mat.get_model_matrix(specs, **ov)
+                    else:
+                        m2 = specs.get_model_matrix(data, context=actx, **ov) if actx else specs.get_model_matrix(data, **ov)
+                    outcome = dict(results=[matrix_json(m, eff_output) for m in flatten(m2)])
+                except Exception as e:
+                    outcome = dict(error=type(e).__name__)
+            outcome["warnings"] = sorted({w.category.__name__ for w in wlist if issubclass(w.category, FormulaicWarning)})
+        finally:
+            FormulaMaterializer._prepare_factor_evaluation_model_spec = o_prep
+            FormulaMaterializer._enforce_structure = o_enf
+        ao["order"] = list(order)
+        ao["generated"] = generated
+        ao["outcome"] = outcome
+        ao["specs_after"] = [spec_json(ms, atoms)["encoder_state"] for ms in flatten(specs)]
+        snap1 = state_snapshot(fit)
+        if snap1 != snap0:
+            ao["state_changed"] = _snap_diff(snap0, snap1)
+            snap0 = snap1
+        if "error" in outcome:
+            out.setdefault("error", outcome["error"])  # counted in the evidence's error_kinds histogram
     return out
+
+
+def _snap_diff(a, b):
+    import json
+
+    for i, (x, y) in enumerate(zip(a, b)):
+        for k in x:
+            if x[k] != y[k]:
+                return f"part {i} {k}: {json.dumps(x[k])[:300]} -> {json.dumps(y[k])[:300]}"
+    return "number of parts"
 
 
 # ----------------------------------------------------------------------------- model side
 
-DTYPE_LABEL = {"category[int]": "category[int]"}
+
+def contr_json(desc, ctx, tables):
+    """descriptor of a `C(…)` atom -> what the engine decodes, with context names resolved against `ctx`"""
+    k = desc["contr"]
+    lv = None if desc["levels"] is None else [val_json(x) for x in desc["levels"]]
+    if k is None:
+        return None, lv
+    if k["kind"] == "treatment":
+        return dict(kind="treatment", sas=k["sas"], base=val_json(k["base"])), lv
+    if k["kind"] == "poly":
+        return dict(kind="poly", scores=None if k["scores"] is None else [str(x) for x in k["scores"]], tables=tables or []), lv
+    if k["kind"] == "custom":
+        if "ctx" in k:
+            v = ctx.get(k["ctx"])
+            names = ctx.get(k["names_ctx"]) if k.get("names_ctx") else None
+        else:
+            v, names = k["value"], k.get("names")
+        return dict(kind="custom", dict=v["dict"], ctor=k["ctor"], vectors=v["vectors"], keys=v["keys"], names=names), lv
+    return dict(k), lv
+
+
+def resolve_spec(sj, ctx, tables):
+    out = dict(sj)
+    out["terms"] = []
+    for t in sj["terms"]:
+        nt = []
+        for f in t:
+            g = {k: v for k, v in f.items() if k != "desc"}
+            if f["via"] == "cwrap":
+                g["contr"], g["levels"] = contr_json(f["desc"], ctx, tables.get(f["expr"]))
+            nt.append(g)
+        out["terms"].append(nt)
+    return out
 
 
 def frame_json(fr):
@@ -721,36 +1409,104 @@ def frame_json(fr):
     )
 
 
+def route_of(c, app):
+    if c["materializer"] == "narwhals":
+        return "arrow" if app.get("follow_as") == "arrow" else "narwhals"
+    return "pandas"
+
+
 def request(c, o):
-    if "specs" not in o:
-        return dict(specs=[], frame=dict(nrows=0, cols=[]), order=[])
-    r = dict(specs=o["specs"], frame=frame_json(c["follow"]), order=o["order"])
-    if c.get("derive"):
-        # the model derives the spec itself from what the fit recorded and replays ITS derivation
+    c = norm_case(c)
+    if "apps" not in o:
+        return dict(apps=[])
+    reqs = []
+    tables = o.get("poly_tables", {})
+    for app, ao in zip(c["apps"], o["apps"]):
+        ctx = app.get("ctx") or {}
+        res = lambda specs: [resolve_spec(s, ctx, tables) for s in specs]
+        if "specs" not in ao:  # the library refused the derivation: the model is asked to derive as well
+            reqs.append(dict(specs=[], frame=dict(nrows=0, cols=[]), order=[], derive=ao.get("derive_resolved", []),
+                             fit_specs=res(o["fit_specs"]), derived=[], replay_on="model"))
+            continue
+        r = dict(specs=res(ao["specs"]), frame=frame_json(app["follow"]), order=ao["order"], route=route_of(c, app))
+        if app.get("overrides"):
+            r["overrides"] = app["overrides"]
+        # the model derives the spec itself from what the FIT recorded and replays ITS derivation
         # (a spec hand-edited after the derivation is replayed as read back)
-        r.update(derive=o["derive_resolved"], fit_specs=o["fit_specs"], derived=o["derived"],
-                 replay_on="live" if c.get("tamper") else "model")
-    return r
+        r.update(derive=ao["derive_resolved"], fit_specs=res(o["fit_specs"]), derived=res(ao["derived"]),
+                 replay_on="live" if app.get("tamper") else "model")
+        reqs.append(r)
+    return dict(apps=reqs)
+
+
+def inexact(c):
+    """coding matrices whose entries are not dyadic: products are rounded by the implementation"""
+    for d in c["formula"].get("atoms", {}).values():
+        k = d["contr"]
+        if k and (k["kind"] in ("poly", "diff") or (k["kind"] == "helmert" and k["scale"])):
+            return True
+    return False
+
+
+def close(a, b, tol=1e-9):
+    if a == b:
+        return True
+    if a is None or b is None or str(a).startswith("obj:") or str(b).startswith("obj:"):
+        return False
+    x, y = Fraction(a), Fraction(b)
+    return abs(x - y) <= tol * max(1, abs(x), abs(y))
+
+
+def values_agree(vi, vm, approx):
+    if vi == vm:
+        return True
+    if not approx or len(vi) != len(vm):
+        return False
+    return all(len(a) == len(b) and all(close(x, y) for x, y in zip(a, b)) for a, b in zip(vi, vm))
 
 
 def agree(c, o, m):
+    c = norm_case(c)
     if "driver_error" in m:
         return "driver: " + m["driver_error"][:300]
     if "train_error" in o:
-        return "the training fit itself failed: " + o["train_error"]
-    if "derive_error" in o or "derive_error" in m:
-        return f"deriving the spec {c.get('derive')}: impl {o.get('derive_error', 'ok')} vs model {m.get('derive_error', 'ok')}"
+        return None  # nothing was recorded, so there is nothing to reuse (counted as `fit:<class>` in the evidence)
+    approx = inexact(c)
+    for i, (app, ao, am) in enumerate(zip(c["apps"], o["apps"], m.get("apps", []))):
+        why = agree_app(c, app, o, ao, am, approx)
+        if why:
+            return (f"application {i + 1} of {len(c['apps'])}: " if len(c["apps"]) > 1 else "") + why
+    if len(m.get("apps", [])) != len(o["apps"]):
+        return "model answered %d of %d applications" % (len(m.get("apps", [])), len(o["apps"]))
+    return None
+
+
+def agree_app(c, app, o, ao, m, approx):
+    if "derive_error" in ao or "derive_error" in m:
+        if ao.get("derive_error") == m.get("derive_error"):
+            return None
+        return f"deriving the spec {ao.get('derive_resolved')}: impl {ao.get('derive_error', 'ok')} vs model {m.get('derive_error', 'ok')}"
     if m.get("derived_diff"):
-        return (f"the spec derived by {o.get('derive_resolved')} does not carry what the fit recorded: it differs from the "
+        return (f"the spec derived by {ao.get('derive_resolved')} does not carry what the fit recorded: it differs from the "
                 f"model's derivation in {m['derived_diff']}")
     if "pooled" not in m:
         return "model: " + str(m)[:200]
-    if sorted(m["pooled"]) != sorted(o["order"]):
-        return f"pooled factor set differs: impl {sorted(o['order'])} vs model {sorted(m['pooled'])}"
+    if sorted(m["pooled"]) != sorted(ao["order"]):
+        return f"pooled factor set differs: impl {sorted(ao['order'])} vs model {sorted(m['pooled'])}"
     for name, kind in m["kinds"]:
-        if o["kinds"].get(name) != kind:
-            return f"kind of column {name}: live _is_categorical says {o['kinds'].get(name)}, generated table says {kind}"
-    oc = o["outcome"]
+        if ao["kinds"].get(name) != kind:
+            return f"kind of column {name}: live _is_categorical says {ao['kinds'].get(name)}, generated table says {kind}"
+    # contract of the parameter: the live polynomial coding matrix is the model's unnormalised one, column k over sqrt(norms2[k])
+    for pc in m.get("poly_checks", []):
+        tab = [t for t in o["poly_tables"].get(pc["expr"], []) if t["n"] == pc["n"]]
+        if not tab:
+            continue
+        for i, row in enumerate(tab[0]["matrix"]):
+            for j, v in enumerate(row):
+                want = float(Fraction(pc["raw"][i][j])) / math.sqrt(float(Fraction(pc["norms2"][j])))
+                if abs(float(Fraction(v)) - want) > 1e-9 * max(1.0, abs(want)):
+                    return f"contr.poly coding matrix for {pc['n']} levels: live entry [{i}][{j}] = {float(Fraction(v))}, model {want}"
+    oc = ao["outcome"]
     if "error" in oc or "error" in m:
         if oc.get("error") != m.get("error"):
             return f"impl {oc.get('error', 'returns a matrix')} vs model {m.get('error', 'returns a matrix')}"
@@ -762,33 +1518,37 @@ def agree(c, o, m):
             return f"part {i}: names {ri['names']} vs model {rm['names']}"
         if ri["ncols"] != len(rm["names"]):
             return f"part {i}: {ri['ncols']} columns vs model {len(rm['names'])}"
-        if ri["values"] != rm["values"]:
+        if not values_agree(ri["values"], rm["values"], approx):
             return f"part {i}: values differ: impl {ri['values']} vs model {rm['values']}"
-        if i < len(o["generated"]) and o["generated"][i] != rm["generated"]:
-            return f"part {i}: generated names before _enforce_structure {o['generated'][i]} vs model {rm['generated']}"
+        if i < len(ao["generated"]) and ao["generated"][i] != rm["generated"]:
+            return f"part {i}: generated names before _enforce_structure {ao['generated'][i]} vs model {rm['generated']}"
     warn_m = any(r["warn"] for r in m["results"])
     warn_i = "DataMismatchWarning" in oc["warnings"]
     if warn_m != warn_i:
         return f"DataMismatchWarning: impl {warn_i} vs model {warn_m}"
+    if m.get("spec_after") is not None and m["spec_after"] != ao["specs_after"]:
+        return f"encoder_state of the reused spec after the application: impl {ao['specs_after']} vs model {m['spec_after']}"
     return None
 
 
 # ----------------------------------------------------------------------------- oracle (implementation only)
 
 
-def _follow_cols(c):
-    return {col["name"]: col for col in c["follow"]["cols"]}
+def _follow_cols(app):
+    return {col["name"]: col for col in app["follow"]["cols"]}
 
 
-def _recorded(c, o):
+def _recorded(app, o, ao):
     """expr -> {"kind", "levels"}: what was RECORDED for each factor. For a spec as the fit (and any
     derivation: a part used alone, subset, pickle) left it, that is what the fit recorded for the
     factor — read from the reused spec itself and, where a derivation did not hand it on, from the
     specs of the fit (every part: a factor shared by several parts is evaluated and encoded once per
     fit). For a spec that was hand-edited afterwards it is what the edited spec says."""
-    sources = list(o["specs"])
-    if not c.get("tamper"):
-        sources += o.get("fit_specs", [])
+    sources = list(ao["specs"])
+    if app.get("tamper"):
+        pass
+    else:
+        sources = list(o.get("fit_specs", [])) + sources  # the FIT's record first: a later application must not have changed it
     rec = {}
     for s in sources:
         for e in s["encoder_state"]:
@@ -796,16 +1556,29 @@ def _recorded(c, o):
     return rec
 
 
-def _kind_changes(c, o):
+def _explicit_levels(f):
+    d = f.get("desc") or {}
+    return None if d.get("levels") is None else [val_json(x) for x in d["levels"]]
+
+
+def _contr_fails(f, app):
+    """the `contrasts` argument of the factor cannot be turned into a coding at all on this application's
+    context (so the reuse fails whatever the data are)"""
+    d = f.get("desc") or {}
+    k = d.get("contr")
+    return bool(k and k["kind"] == "custom" and "ctx" in k and app.get("ctx_modes", {}).get(k["ctx"], "same") != "same")
+
+
+def _kind_changes(app, o, ao):
     """[(expr, recorded, new)] for pooled factors with recorded encoder state whose column is present"""
-    cols = _follow_cols(c)
-    rec = _recorded(c, o)
-    if c.get("tamper"):  # hand-edited parts may disagree: the pooled evaluation spec is a dict.update (last wins)
-        for s in o["specs"]:
+    cols = _follow_cols(app)
+    rec = _recorded(app, o, ao)
+    if app.get("tamper"):  # hand-edited parts may disagree: the pooled evaluation spec is a dict.update (last wins)
+        for s in ao["specs"]:
             for e in s["encoder_state"]:
                 rec[e["expr"]] = e
     seen, changes, declared_conflict = set(), [], False
-    for s in o["specs"]:
+    for s in ao["specs"]:
         for t in s["terms"]:
             for f in t:
                 if f["expr"] in seen or f["via"] == "literal":
@@ -813,7 +1586,7 @@ def _kind_changes(c, o):
                 seen.add(f["expr"])
                 if f["column"] not in cols:
                     continue
-                new = "categorical" if f["via"] == "cwrap" else o["kinds"][f["column"]]
+                new = "categorical" if f["via"] == "cwrap" else ao["kinds"][f["column"]]
                 if f["declared"] is not None and f["declared"] != new:
                     if f["declared"] == "categorical":
                         new = "categorical"
@@ -825,14 +1598,31 @@ def _kind_changes(c, o):
 
 
 def oracle(c, o):
+    c = norm_case(c)
     if "harness_exception" in o:
         return "harness could not run the implementation: " + o["harness_exception"]
-    if "train_error" in o or "derive_error" in o:
+    if "train_error" in o:
         return None
-    cols = _follow_cols(c)
-    oc = o["outcome"]
+    for i, (app, ao) in enumerate(zip(c["apps"], o["apps"])):
+        why = oracle_app(c, app, o, ao)
+        if why:
+            return (f"application {i + 1} of {len(c['apps'])}: " if len(c["apps"]) > 1 else "") + why
+    return None
+
+
+def oracle_app(c, app, o, ao):
+    if "derive_error" in ao:
+        return None
+    # clause 4: applying a recorded spec does not change what it records
+    if ao.get("state_changed") and not app.get("tamper") and not any(v != "same" for v in app.get("ctx_modes", {}).values()):
+        # (a `contrasts` object taken from a CHANGED evaluation context is written into the state for introspection)
+        return "the application changed the state of the recorded spec: " + ao["state_changed"]
+    cols = _follow_cols(app)
+    oc = ao["outcome"]
+    ov = app.get("overrides") or {}
+    na_action = ov.get("na_action", c["na_action"])
     factors = {}
-    for s in o["specs"]:
+    for s in ao["specs"]:
         for t in s["terms"]:
             for f in t:
                 if f["via"] != "literal":
@@ -840,8 +1630,9 @@ def oracle(c, o):
     involved = sorted({f["column"] for f in factors.values()})
     missing = [v for v in involved if v not in cols]
     has_null = any(v is None for k in involved if k in cols for v in cols[k]["values"])
-    other_cause = bool(missing) or (c["na_action"] == "raise" and has_null)
-    changes, declared_conflict = _kind_changes(c, o)
+    contr_fail = any(_contr_fails(f, app) for f in factors.values())
+    other_cause = bool(missing) or (na_action == "raise" and has_null) or contr_fail
+    changes, declared_conflict = _kind_changes(app, o, ao)
 
     # clause 1
     if changes:
@@ -853,83 +1644,162 @@ def oracle(c, o):
             return f"factor `{e}` changed kind ({was} -> {now}) but the error raised is {oc['error']}, not an encoding error"
         return None
     if "error" in oc:
-        if other_cause or declared_conflict or c.get("tamper"):
+        if other_cause or declared_conflict or app.get("tamper"):
             return None  # a hand-edited spec may legitimately be rejected by _enforce_structure
         return f"no factor changed kind and every column is present, but reuse raised {oc['error']} instead of producing the recorded columns"
 
     # clauses 2 and 3 on a matrix
-    n = c["follow"]["nrows"]
+    n = app["follow"]["nrows"]
     alive = [True] * n
-    if c["na_action"] == "drop":
+    if na_action == "drop":
         for k in involved:
             for i, v in enumerate(cols[k]["values"]):
                 if v is None:
                     alive[i] = False
-    if len(oc["results"]) != len(o["specs"]):
+    if len(oc["results"]) != len(ao["specs"]):
         return "number of matrices differs from the number of recorded specs"
-    for s, r in zip(o["specs"], oc["results"]):
+    for s, r in zip(ao["specs"], oc["results"]):
         want = [x for t in s["structure"] for x in t["columns"]]
         if r["names"] != want:
             return f"column names {r['names']} differ from the recorded {want}"
         if r["ncols"] != len(want):
             return f"{r['ncols']} columns for {len(want)} recorded names"
-    rec = _recorded(c, o)
-    encoded = {sf["expr"] for s in o["specs"] for t in s["structure"] for st in t["scoped"] for sf in st["factors"]}
+    rec = _recorded(app, o, ao)
+    encoded = {sf["expr"] for s in ao["specs"] for t in s["structure"] for st in t["scoped"] for sf in st["factors"]}
+    approx = inexact(c)
     for expr, f in factors.items():
         e = rec.get(expr)
-        if e is None or e["kind"] != "categorical" or e["levels"] is None or expr not in encoded:
+        if e is None or e["kind"] != "categorical" or expr not in encoded:
+            continue
+        levels = _explicit_levels(f)
+        if levels is None:
+            levels = e["levels"]
+        if levels is None:
             continue
         col = cols[f["column"]]
         cells = [case_cell(col["dtype"], v) for v in col["values"]]
-        levels = e["levels"]
         surviving = [x for i, x in enumerate(cells) if alive[i] and x is not None]
         unseen = [x for x in surviving if x not in levels]
         if unseen and "DataMismatchWarning" not in oc["warnings"]:
             return f"factor `{expr}`: value {unseen[0]} was not a level at fit time ({levels}) and no DataMismatchWarning was raised (warnings: {oc['warnings']})"
+        contr = (f.get("desc") or {}).get("contr")
+        dummy_coded = contr is None or contr["kind"] == "treatment"
         for l in levels:
-            if l in cells:
+            if l in cells or not dummy_coded:
                 continue
             txt = l["s"] if "s" in l else l["n"] if "n" in l else str(l["b"])
             comps = {f"{expr}[{txt}]", f"{expr}[T.{txt}]"}
             for si, r in enumerate(oc["results"]):
                 padded = set()
-                if c.get("tamper") and si < len(o["generated"]):
+                if app.get("tamper") and si < len(ao["generated"]):
                     # a hand-edited spec may send a term through the padding branches of _enforce_structure
                     # (its generated names are not the recorded ones): such columns are copies, not dummies
-                    for ts, gen in zip(o["specs"][si]["structure"], o["generated"][si]):
+                    for ts, gen in zip(ao["specs"][si]["structure"], ao["generated"][si]):
                         if sorted(gen) != sorted(ts["columns"]):
                             padded |= set(ts["columns"])
                 for name, vals in zip(r["names"], r["values"]):
                     if name in padded:
                         continue
-                    if comps & set(name.split(":")):
+                    if any(name == cp or name.startswith(cp + ":") or name.endswith(":" + cp) or (":" + cp + ":") in name for cp in comps):
                         bad = [v for v in vals if v is not None and v != "0"]
                         if bad:
                             return f"level {txt} of `{expr}` is absent from the follow-up data but column {name} is not all zero: {vals}"
+        # the block of a contrast-coded main effect = rows of the coding matrix the FIT recorded
+        if app.get("tamper") or _contr_fails(f, app) or app.get("ctx_modes"):
+            continue
+        why = _coding_block(c, app, o, ao, expr, cells, alive, levels, approx)
+        if why:
+            return why
     return None
 
 
+def _coding_block(c, app, o, ao, expr, cells, alive, levels, approx):
+    oc = ao["outcome"]
+    kept = [x for i, x in enumerate(cells) if alive[i]]
+    for si, (s, r) in enumerate(zip(ao["specs"], oc["results"])):
+        pos = 0
+        for ts in s["structure"]:
+            width = len(ts["columns"])
+            block = r["values"][pos: pos + width]
+            pos += width
+            if len(ts["scoped"]) != 1 or len(ts["scoped"][0]["factors"]) != 1 or ts["scoped"][0]["factors"][0]["expr"] != expr:
+                continue
+            st = ts["scoped"][0]
+            red = st["factors"][0]["reduced"]
+            recs = [p.get(f"{expr}|{int(red)}") for p in o.get("recorded_codings", [])]
+            recs = [x for x in recs if x]
+            if not recs:
+                continue
+            cm = recs[0]
+            if cm["levels"] != levels or len(cm["cols"]) != width:
+                continue
+            scale = Fraction(st["scale"])
+            for ri, cell in enumerate(kept):
+                if cell in cm["levels"]:
+                    want = [Fraction(x) * scale for x in cm["matrix"][cm["levels"].index(cell)]]
+                else:
+                    want = [Fraction(0)] * width
+                got = [colv[ri] for colv in block]
+                for j, (g, w) in enumerate(zip(got, want)):
+                    if g is None or not close(g, fstr(w), 1e-9 if approx else 0):
+                        return (f"factor `{expr}`, row {ri} (cell {cell}): column {ts['columns'][j]} is {g}, but the coding recorded at fit time "
+                                f"gives {fstr(w)} ({'a recorded level' if cell in cm['levels'] else 'not a recorded level: the zero row'})")
+    return None
+
+
+def _empty_narwhals_apps(c, o):
+    """applications that hit finding C09-F1: effective output 'narwhals', some reused part records ZERO
+    columns, no factor changed kind, every column present — and the reuse raised TypeError"""
+    hits = []
+    for i, (app, ao) in enumerate(zip(c["apps"], o.get("apps", []))):
+        oc = ao.get("outcome")
+        if not oc or oc.get("error") != "TypeError" or app.get("tamper"):
+            continue
+        if (app.get("overrides") or {}).get("output", c["output"]) != "narwhals":
+            continue
+        if not any(all(not t["columns"] for t in s["structure"]) for s in ao["specs"]):
+            continue  # no part without columns
+        if _kind_changes(app, o, ao)[0]:
+            continue
+        hits.append(i)
+    return hits
+
+
 def classify(c, o, why):
+    c = norm_case(c)
+    if "TypeError" in (why or "") and "train_error" not in o and _empty_narwhals_apps(c, o):
+        return "C09-F1"
     return None
 
 
 LEVEL_TEXT = (
     "Proof: Lean theorems (Props/C09.lean) about the executable model of the reuse path (pooled evaluation spec, both kind "
-    "guards of _evaluate_factor, pinned-level encoding with the DataMismatchWarning condition, rehydrated scoped terms, "
-    "_enforce_structure as written) show for ALL recorded specs, follow-up frames and factor orders: a factor whose kind differs "
-    "from the recorded one makes the replay an error (FactorEncodingError unless an earlier factor fails differently) whether it "
-    "stands alone or inside any interaction; a successful replay has exactly the recorded column names; with pinned levels the "
-    "generated names do not depend on the data, an absent level's columns are all zero, and the warning flag is raised exactly "
-    "when a surviving cell is not a recorded level; the 1->many padding branch of _enforce_structure is unreachable under a kind "
-    "change; a spec derived from a recorded one by any history of part / subset / round-trip steps carries that spec's "
-    "encoder_state verbatim, its rows are rows of that spec, and the kind-change and name theorems hold for its reuse "
-    "(replayDerived) with respect to the kinds and levels recorded at fit time. The model is tied to the code by a differential correspondence on every run (training fit by the real code, recorded "
-    "spec read back, derivations performed by both sides and compared field by field, follow-up replay compared cell by cell "
-    "incl. warnings and pre-enforcement names)."
+    "guards of _evaluate_factor incl. the `not in factor_cache` test, the arguments of a C(...) call — contrasts and explicit "
+    "levels —, CustomContrasts.__init__, nominated-level encoding with the DataMismatchWarning condition and Contrasts.apply for "
+    "every contrast class, rehydrated scoped terms, _enforce_structure as written) show for ALL recorded specs, follow-up frames "
+    "and factor orders: a factor whose kind differs from the recorded one makes the replay an error (FactorEncodingError unless an "
+    "earlier factor fails differently) whether it stands alone or inside any interaction, under any attr_overrides, and on a "
+    "materializer object whatever its earlier calls left in its factor cache; a successful replay has exactly the recorded column "
+    "names; against nominated levels (recorded, or an explicit levels=) the encoding of a factor succeeds or fails and names its "
+    "columns independently of the data FOR EVERY CONTRAST; for the dummy codings (default, treatment/SAS with a base) an absent "
+    "level's columns are all zero, for a matrix contrast (sum, helmert, diff, poly, custom) a cell holding level i contributes row i "
+    "of the coding matrix and a cell holding no nominated level the zero row, and every generated column is the scaled product of "
+    "one such encoded column per factor; the warning flag is raised exactly when a surviving cell is not a nominated level, "
+    "identically for every output other than narwhals and for every iteration order of the pooled factor set; mismatching custom-contrast names are an error of the factor's evaluation, "
+    "never a matrix; the 1->many padding branch of _enforce_structure is unreachable under a kind change; a spec derived from a "
+    "recorded one by any history of part / subset / ModelSpecs.subset / round-trip steps carries that spec's encoder_state verbatim, "
+    "its rows are rows of that spec, and the kind-change and name theorems hold for its reuse; an application leaves a fitted spec "
+    "exactly as it found it, so any session of applications returns, one by one, what first applications would (an unseen level is "
+    "announced every time). The model is tied to the code by a differential correspondence on every run (training fit by the real "
+    "code, recorded spec read back once, derivations performed by both sides and compared field by field, every application compared "
+    "cell by cell incl. warnings, pre-enforcement names and the encoder_state it leaves behind; pandas, narwhals-on-pandas and "
+    "narwhals-on-pyarrow inputs; pandas / numpy / sparse / narwhals outputs)."
 )
 LEVEL_NOTE = (
-    "Trusted: Lean kernel + propext/Classical.choice/Quot.sound; the hand model of base.py/contrasts.py reuse path validated by "
-    "correspondence; the dtype->kind table is regenerated from the live _is_categorical; pandas' categorical machinery, set "
-    "iteration order and numpy products enter as parameters; multi-part encoded_cache sharing at FIT time (the oracle, not the model, holds a later part "
-    "to what the fit recorded for a shared factor), non-treatment contrasts and other stateful transforms are outside the model."
+    "Trusted: Lean kernel + propext/Classical.choice/Quot.sound; the hand model of base.py/contrasts.py/model_spec.py reuse path "
+    "validated by correspondence; the dtype->kind table and the contrast name formats are regenerated from the live package; pandas' "
+    "categorical machinery, set iteration order, numpy products and the sqrt normalisation of contr.poly enter as parameters; "
+    "multi-part encoded_cache sharing at FIT time (the oracle, not the model, holds a later part to what the fit recorded for a shared "
+    "factor), what a failed application may have written, and other stateful transforms are outside the model. Known finding C09-F1 "
+    "(output='narwhals' with a part that records no column: TypeError) is mirrored by the model and reported, not hidden."
 )
